@@ -57,8 +57,11 @@ static spif_map_t ng_map(int c) {
     return m;
 }
 static spif_iterator_t ng_iter(int c) { return SPIF_LIST_ITERATOR(ng_list(c)); }
-static spif_obj_t ng_item(int c) {          /* c: 1 linked_list_item, 2 dlinked_list_item */
-    return SPIF_OBJ((c == 1 ? SPIF_CLASS_VAR(linked_list_item) : SPIF_CLASS_VAR(dlinked_list_item))->noo());
+extern spif_class_t SPIF_CLASS_VAR(linked_list_item), SPIF_CLASS_VAR(dlinked_list_item);     /* not declared in the headers */
+extern spif_iteratorclass_t SPIF_ITERATORCLASS_VAR(array), SPIF_ITERATORCLASS_VAR(linked_list), SPIF_ITERATORCLASS_VAR(dlinked_list);
+static spif_obj_t ng_item(int c) {          /* c: 1 linked_list_item, 2 dlinked_list_item - a real node (with data) of a real list */
+    spif_list_t l = ng_list(c);
+    return c == 1 ? SPIF_OBJ(SPIF_LINKED_LIST(l)->head) : SPIF_OBJ(SPIF_DLINKED_LIST(l)->head);
 }
 static FILE *ng_file(void) { FILE *f = tmpfile(); if (f) { fputs("first line\nsecond line\n", f); rewind(f); } return f; }
 static int ng_fd(void) { return open("/dev/null", O_RDONLY); }
@@ -91,6 +94,10 @@ static void ng_snap_obj(const void *p) {         /* deep textual dump through th
 }
 static void ng_snap_chars(const void *p) { if (p) ng_snap_add((const char *) p, strlen((const char *) p)); ng_snap_add(";", 1); }
 static void ng_snap_bytes(const void *p) { if (p) ng_snap_add((const char *) p, 10); ng_snap_add(";", 1); }
+static void ng_snap_item(const void *p) {        /* list nodes are not objects (no class pointer): data and link fields, then the datum */
+    if (p) { ng_snap_add((const char *) p, 2 * sizeof(void *)); ng_snap_obj(*(void *const *) p); }
+    ng_snap_add(";", 1);
+}
 static void ng_snap_file(FILE *f) { char b[32]; snprintf(b, sizeof(b), "%ld;", f ? ftell(f) : -1L); ng_snap_add(b, strlen(b)); }
 static void ng_snap_strlist(spif_charptr_t *l) { int k; for (k = 0; l && l[k]; k++) ng_snap_chars(l[k]); ng_snap_add(";", 1); }
 static int ng_changed(void) { return ng_snaplen[0] != ng_snaplen[1] || memcmp(ng_snapbuf[0], ng_snapbuf[1], ng_snaplen[0]) != 0; }
@@ -174,6 +181,7 @@ static void ng_run(int id, int level) {
         info[j] = 0;
         if (!j) strcpy(info, "-");
     }
+    if (getenv("NG_VERBOSE")) fprintf(stderr, "---- row %d level %d: captured diagnostic ----\n%s\n", id, level, err);
     printf("E row=%d level=%d ended=%s %s diag=%s status=%d info=%s\n", id, level, ended,
            n > 0 ? res : "rv=- changed=0 heapdelta=0", diag, WIFEXITED(status) ? WEXITSTATUS(status) : 128 + WTERMSIG(status), info);
 }
